@@ -52,7 +52,12 @@ class TrackedFrames:
                     raise CallerFault(f"caller's generator failed at frame {i}")
                 self.disk.log("pull", self.path, i=i)
                 self.pulled.append(i)
-                if self.kind == "gen_fresh":
+                if self.kind == "gen_reentrant":
+                    # the producer itself uses the library while dump_many is in progress (as in
+                    # dump_many(convert(frame) for frame in load_many(...)))
+                    self._reenter(i, frame)
+                    yield frame
+                elif self.kind == "gen_fresh":
                     # a new object per frame; nothing else keeps it alive once the writer is done with it
                     obj = copy.deepcopy(frame)
                     yield obj
@@ -74,6 +79,23 @@ class TrackedFrames:
         except GeneratorExit:
             self.closed_early = True
             raise
+
+    def _reenter(self, i, frame):
+        import warnings
+
+        import iodata
+
+        with warnings.catch_warnings():
+            warnings.simplefilter("ignore")
+            side = f"reenter/{i % 3}.xyz"
+            try:
+                if i % 2 == 0:
+                    iodata.dump_one(copy.deepcopy(frame), side)
+                    iodata.load_one(side)
+                else:
+                    list(iodata.load_many(side)) if side in self.disk.files else iodata.dump_many(iter([copy.deepcopy(frame)]), side)
+            except Exception:  # noqa: BLE001 - the side activity's own outcome is not the subject
+                pass
 
     def __iter__(self):
         self.n_iter += 1
